@@ -190,6 +190,12 @@ def run(ctx):
         ctx.notes.append('stale finding: C19-components-of-module-order no longer reproduces')
     else:
         ctx.known_finding('C19-components-of-module-order', 'witness: cross-module COMPONENTS OF under AUTOMATIC TAGS encodes as %s or %s depending on module order' % tuple(outs))
+    # same-named imported symbols (values used as bounds, types) in different modules vs the same types written inline
+    from .. import samename
+    samename.run(ctx, 'C19', ctx.rng, ctx.n(5, 60))
+    # one referenced type + one member name used several ways (the compiled-type cache): order of assignments / inline copy
+    from .. import aliasfam
+    aliasfam.run_c19(ctx, ctx.rng, ctx.n(60, 800), impl, CODECS)
 
 
 def replay(ctx, path):
